@@ -161,7 +161,8 @@ def run_case(case, ctx, _objs=None):
 def gen_case(draw, tier):
 	if draw(st.integers(0, 39)) == 39:
 		from vlib import world as Wd
-		return {'kind': 'world', 'world': draw(Wd.world(max_refs=8, max_queries=5)), 'chunksize': draw(st.sampled_from([1000, None, 1, 3]))}
+		return {'kind': 'world', 'world': draw(Wd.world(max_refs=8, max_queries=5)), 'chunksize': draw(st.sampled_from([1000, None, 1, 3])),
+		        'multi_set': draw(st.sampled_from([None, 'decoy_first', None, 'decoy_last']))}
 	taxa = draw(taxgen.forest())
 	ng = draw(st.integers(1, 12))
 	dists = draw(st.lists(taxgen.DIST, min_size=ng, max_size=ng))
